@@ -18,7 +18,8 @@ ASSUMPTIONS = [
     "a task that keeps rescheduling a due task under an unlimited Step never returns (in the code as in the model: "
     "fuel); generated bodies avoid such livelocks",
 ]
-TRUSTED = ["std::deque/std::shared_ptr semantics (modelled, not verified)"]
+TRUSTED = ["tools/cxx2lean.py (source-derived tie, DESIGN.md 0.7): clang-14 JSON AST, chrono unit semantics read from the desugared types, unbounded Int for signed arithmetic (overflow = UB), abstract memcmp / container queries",
+           "std::deque/std::shared_ptr semantics (modelled, not verified)"]
 ALL_TAGS = ["new", "newin", "newidle", "shift", "shiftd", "cancel", "drop", "stop", "clock", "ran",
             "step.unlimited", "step.zero", "step.limited", "wait.todo", "wait.full"]
 EXHAUSTIVE = {"thorough": False}
